@@ -126,7 +126,11 @@ func (cr *chainRun) attempt(node *chain.Node, blk *chain.Blk, subj *subject, i i
 	r.Eval(1)
 	r.Count("attempts", 1)
 	r.Count("op:"+t.Op, 1)
-	r.Count("rejected_by:"+stage+"/"+backendName(cr.newState), 1)
+	if err != nil {
+		r.Count("rejected_by:"+stage+"/"+backendName(cr.newState), 1)
+	} else {
+		r.Count("accepted(violation)", 1)
+	}
 	if t.Stage == "store" {
 		r.Count("store_level_attempts_reaching:"+stage, 1)
 	}
@@ -138,7 +142,7 @@ func (cr *chainRun) attempt(node *chain.Node, blk *chain.Blk, subj *subject, i i
 		if t.Stage == "store" {
 			cls += ":" + backendName(cr.newState)
 		}
-		if t.Op == "state_update/old_root" {
+		if strings.HasPrefix(t.Op, "state_update/old_root") {
 			// own class: the block itself is valid, only the state update's claim about the
 			// state it applies to is wrong (zero = "empty state", or some other root)
 			kind := "nonzero"
@@ -436,9 +440,9 @@ func planFixtures(r *lib.Run, fxs []*fixture) ([]fxItem, error) {
 		k, limit := 3, 0
 		switch {
 		case n > 60:
-			k, limit = 1, 6
+			k, limit = 1, 5
 		case n > 20:
-			k, limit = 2, 30
+			k, limit = 2, 24
 		}
 		if !r.Quick() {
 			k, limit = k*4, 0
@@ -515,7 +519,9 @@ func fixturePositive(r *lib.Run, idx int, it fxItem, v *verifier, w witness) {
 	}
 	var cms [2]*core.BlockCommitments
 	for bi, newState := range []bool{false, true} {
-		cm, err := v.verify(fxBlk(fx), newState)
+		// a private copy: hashing sorts the state diff's class list in place, and other
+		// cases read the shared fixture concurrently
+		cm, err := v.verify(chain.CloneBlk(fxBlk(fx)), newState)
 		r.Eval(1)
 		if err != nil {
 			w.Backend, w.Expected, w.Observed = backendName(newState), "network-assigned hashes verify", errStr(err)
@@ -611,7 +617,7 @@ func TestC02(t *testing.T) {
 	if err != nil {
 		t.Fatalf("fixtures: %v", err)
 	}
-	nChains := r.N(16, 240)
+	nChains := r.N(12, 40)
 	// big fixture chunks first (they bound the wall time), then chains
 	order := make([]int, len(items))
 	for i := range order {
